@@ -317,8 +317,27 @@ class LzmaV(Val):
 
 
 def c_lzma_open(ctx, path, mode='rb'):
+  if isinstance(path, PathV) and 'exists:' + path.label in ctx.ghost:
+    e, _ = fstate(ctx, path.label)
+    if ctx.branch(z3.Not(e)):
+      raise RaiseSig(ExcV('FileNotFoundError'))      # not an injected fault: the compressed source is gone
   fault(ctx, 'lzma_open')
   return LzmaV()
+
+
+def c_glob(ctx, pattern):
+  """glob.glob(prefix + '.*') over the ghost directory: every existing file whose name extends `prefix.` (the
+  directory holds the names the model knows: FILE, FILE.partial, FILE.lzma, ...)."""
+  if not (isinstance(pattern, PathV) and pattern.label.endswith('.*')):
+    raise Unsupported('glob pattern')
+  prefix = pattern.label[:-1]
+  out = []
+  for k in sorted(ctx.ghost):
+    if k.startswith('exists:') and k[len('exists:'):].startswith(prefix):
+      label = k[len('exists:'):]
+      if ctx.branch(ctx.ghost[k]):
+        out.append(PathV(label, ctx.tags['totals'].get(label, LEN)))
+  return ctx.alloc(PyListCell(out))
 
 
 def globals_():
@@ -342,6 +361,7 @@ def globals_():
       'log': noop,
       'default_cache_dir': Handler(lambda ctx: StrV(), 'default_cache_dir'),
       'lzma': Module('lzma', {'open': Handler(c_lzma_open, 'lzma.open')}),
+      'glob': Module('glob', {'glob': Handler(c_glob, 'glob.glob'), 'escape': Handler(lambda ctx, p: p, 'glob.escape')}),
       'shutil': Module('shutil', {'copyfileobj': Handler(c_copyfileobj, 'copyfileobj'),
                                   'move': Handler(c_rename, 'shutil.move'), 'copy': Handler(c_copy, 'shutil.copy'),
                                   'copyfile': Handler(c_copy, 'shutil.copyfile'), 'copy2': Handler(c_copy, 'shutil.copy2')}),
@@ -414,9 +434,15 @@ def v_lzma(p):
     ctx.tags['totals']['FILE'] = DLEN
     ctx.assume(z3.Implies(e, w == DLEN))
     fstate(ctx, 'FILE.partial')   # a stale .partial from an earlier interrupted call may hold anything
+    # the complete cached download (the argument): present when the call starts
+    ctx.ghost['exists:FILE.lzma'] = z3.BoolVal(True)
+    ctx.ghost['written:FILE.lzma'] = LEN
     e0 = e
     kind, r = eng.run_function(ctx, ex.funcv(), [PathV('FILE.lzma', LEN)])
     g = ctx.ghost
+    ctx.oblige('xz.src.kept', z3.And(g['exists:FILE.lzma'], g['written:FILE.lzma'] == LEN), kind='crash-invariant',
+               detail='on return and on every exceptional exit the complete cached download (the .lzma source) is still there: '
+                      'a failed decompression is repaired by decompressing again, without touching the network')
     ctx.oblige('xz.atomic.exit', z3.Implies(g['exists:FILE'], g['written:FILE'] == DLEN),
                kind='crash-invariant',
                detail='on return and on every exceptional exit the decompressed path is absent or complete')
